@@ -62,6 +62,16 @@ def rule_r02d(ctx, P, r):
                 return out
             expanded = []
             for i, how, ub in uses:
+                # `dest[idx - first]` with `first = is_parity ? k : 0` (and dest chosen by the same test): one use per arm
+                sd_ = f.defs.get(strip_int_casts(f, i.ops[1])) if i.op == 'sub' else None
+                if sd_ is not None and sd_.op == 'select':
+                    arms = [(strip_int_casts(f, sd_.ops[1]), True), (strip_int_casts(f, sd_.ops[2]), False)]
+                    if {a_ for a_, _ in arms} == {f.params[0][1], '0'}:
+                        for a_, tv_ in arms:
+                            bbs_ = [bb_ for bb_, _cd in (contexts(i.res) or [(i.bb, None)])]
+                            for bb_ in dict.fromkeys(bbs_):
+                                expanded.append((i, 'parity[] subscript (index - k)' if a_ != '0' else 'data[] subscript', 'k+m' if a_ != '0' else 'k', bb_, (sd_.ops[0], tv_)))
+                        continue
                 ctxs = contexts(i.res) if i.res else []
                 if ctxs:
                     # the range check has to hold where the address is used, not where it is computed
